@@ -28,6 +28,20 @@ fn emit(body: String) {
     ldap3::verif::log(&format!("{},\"vt\":{}", body, vt));
 }
 
+/// Called by the transport the first time a write finds the peer not reading: for the model the stall begins here (a
+/// peer that does not read is unobservable until a write has to wait) and the driver is now inside stream.send().
+fn on_block() {
+    emit("\"ev\":\"SrvStall\"".to_string());
+    emit("\"ev\":\"WBlocked\"".to_string());
+}
+
+fn resume(io: &MockIo, log: bool) {
+    if io.write_blocked() && log {
+        emit("\"ev\":\"SrvResume\"".to_string());
+    }
+    io.resume_writes();
+}
+
 /// Yield until no new event has been recorded for a few consecutive yields.
 async fn settle() {
     let mut quiet = 0;
@@ -265,10 +279,11 @@ struct Profile {
     burst: bool,
     unbind: bool,
     many_items: bool,
+    stall: bool,
 }
 
 fn profile(name: &str) -> Profile {
-    let mut p = Profile { timeouts: false, faults: false, orphans: false, burst: false, unbind: false, many_items: false };
+    let mut p = Profile { timeouts: false, faults: false, orphans: false, burst: false, unbind: false, many_items: false, stall: false };
     match name {
         "plain" => {}
         "timeouts" => p.timeouts = true,
@@ -282,6 +297,16 @@ fn profile(name: &str) -> Profile {
             p.timeouts = true
         }
         "long" => p.many_items = true,
+        "stall" => {
+            p.stall = true;
+            p.timeouts = true
+        }
+        "stallfaults" => {
+            p.stall = true;
+            p.timeouts = true;
+            p.faults = true;
+            p.unbind = true
+        }
         _ => {
             p.timeouts = true;
             p.faults = true;
@@ -346,7 +371,10 @@ fn push_chunked(io: &MockIo, bytes: &[u8], rng: &mut StdRng) {
 
 /// The scripted server reads what the client wrote since the last call.
 fn absorb_written(io: &MockIo, pending: &mut Vec<Pending>, known_ids: &mut Vec<i32>) {
-    let (msgs, _rest) = ber::split_messages(&io.take_written());
+    let (msgs, rest) = ber::split_messages(&io.take_written());
+    if !rest.is_empty() {
+        io.unread_written(&rest); // an incomplete message (the peer stopped reading in the middle of it)
+    }
     for (el, _raw) in msgs {
         if el.kids.len() >= 2 {
             let id = ber::uint_of(&el.kids[0].val);
@@ -384,6 +412,8 @@ fn run_scenario(seed: u64, prof: &Profile, out: &mut Vec<String>, rep: &mut Repo
         let mut rng = StdRng::seed_from_u64(seed ^ 0x9e3779b97f4a7c15);
         T0.with(|t| t.set(Some(tokio::time::Instant::now())));
         let io = MockIo::new();
+        io.0.lock().unwrap().on_block = Some(on_block);
+        let mut stalled = false;
         let (conn, ldap) = LdapConnAsync::verif_from_io(Box::new(io.clone()));
         // counter placement: sometimes next to the wrap point
         if rng.gen_bool(0.25) {
@@ -506,9 +536,12 @@ fn run_scenario(seed: u64, prof: &Profile, out: &mut Vec<String>, rep: &mut Repo
                 io.push(Item::Eof);
                 net_up = false;
                 faulted = true;
+                resume(&io, false);
             } else if choice < 84 && prof.faults && net_up && !faulted {
                 net_up = false;
                 faulted = true;
+                resume(&io, false); // the fault ends the stall: the mock accepts writes on a half-closed connection
+                stalled = false;
                 match rng.gen_range(0..4) {
                     0 => {
                         emit("\"ev\":\"SrvClose\",\"how\":\"eof\"".to_string());
@@ -532,6 +565,14 @@ fn run_scenario(seed: u64, prof: &Profile, out: &mut Vec<String>, rep: &mut Repo
                         io.fail_writes_at(w, std::io::ErrorKind::BrokenPipe);
                     }
                 }
+            } else if choice < 90 && prof.stall && net_up && !faulted && !io.shutdown_seen() {
+                // the peer stops reading after a few more bytes (possibly in the middle of a request), or reads again
+                if stalled {
+                    resume(&io, true);
+                } else {
+                    io.stall_writes(if rng.gen_bool(0.5) { 0 } else { rng.gen_range(1..40) });
+                }
+                stalled = !stalled;
             } else {
                 now += 1;
                 settle().await;
@@ -562,6 +603,10 @@ fn run_scenario(seed: u64, prof: &Profile, out: &mut Vec<String>, rep: &mut Repo
             settle().await;
         }
         // answer whatever is still pending so that untimed operations complete
+        if stalled {
+            resume(&io, true);
+            settle().await;
+        }
         absorb_written(&io, &mut pending, &mut known_ids);
         if io.shutdown_seen() && net_up {
             // an unbind went out during the last steps: the peer closes, it does not answer on a half-closed connection
@@ -674,6 +719,7 @@ fn run_script(n: u64, script: &[serde_json::Value], out: &mut Vec<String>, rep: 
         let mut rng = StdRng::seed_from_u64(n);
         T0.with(|t| t.set(Some(tokio::time::Instant::now())));
         let io = MockIo::new();
+        io.0.lock().unwrap().on_block = Some(on_block);
         let (conn, ldap) = LdapConnAsync::verif_from_io(Box::new(io.clone()));
         let drv = tokio::spawn(async move {
             use futures::FutureExt;
@@ -789,11 +835,13 @@ fn run_script(n: u64, script: &[serde_json::Value], out: &mut Vec<String>, rep: 
                     match how {
                         "eof" => {
                             io.push(Item::Eof);
-                            net_up = false
+                            net_up = false;
+                            resume(&io, false)
                         }
                         "reset" => {
                             io.push(Item::Err(std::io::ErrorKind::ConnectionReset));
-                            net_up = false
+                            net_up = false;
+                            resume(&io, false)
                         }
                         _ => {
                             let w = io.0.lock().unwrap().written;
@@ -806,7 +854,10 @@ fn run_script(n: u64, script: &[serde_json::Value], out: &mut Vec<String>, rep: 
                     io.push_bytes(&[0x04, 0x03, 0x41, 0x42, 0x43]);
                     io.push(Item::Eof);
                     net_up = false;
+                    resume(&io, false);
                 }
+                "stall" => io.stall_writes(0),
+                "resume" => resume(&io, true),
                 "wfail-at" => {
                     // writes fail once the client has written this many bytes in total (fault enumeration)
                     io.fail_writes_at(step["off"].as_u64().unwrap() as usize, std::io::ErrorKind::BrokenPipe);
@@ -883,6 +934,7 @@ fn run_script(n: u64, script: &[serde_json::Value], out: &mut Vec<String>, rep: 
             settle().await;
         }
         // wind down: finish every stream, let timers fire, answer what is pending, drop, close
+        resume(&io, true);
         for s in slots.values_mut() {
             if let Some(tx) = s.tx.take() {
                 let _ = tx.send(Cmd::Finish);
